@@ -42,6 +42,12 @@ def handle (st : St) (j : Json) : D (St × Json) := do
     let m ← stepMap (← field j "m")
     let r := m.mapResult (← int (← field j "pos")) (← int (← field j "assoc"))
     return (st, ok (eMapResult r))
+  | "mapAll" =>
+    let m ← stepMap (← field j "m")
+    let lo ← int (← field j "lo")
+    let n ← nat (← field j "n")
+    let one := fun (a : Int) => Json.arr ((List.range n).map (fun (k : Nat) => eMapResult (m.mapResult (lo + (k : Int)) a))).toArray
+    return (st, ok (Json.arr #[one (-1), one 1]))
   | "forEach" =>
     let m ← stepMap (← field j "m")
     return (st, ok (Json.arr (m.forEach.map (fun (a, b, c, d) => Json.arr #[eInt a, eInt b, eInt c, eInt d])).toArray))
